@@ -116,6 +116,18 @@ def spectral_names(f):
     return mentions
 
 
+def _key_by_size(call):
+    for k in call.keywords:
+        if k.arg == 'key':
+            if isinstance(k.value, ast.Name) and k.value.id == 'len':
+                return True
+            if isinstance(k.value, ast.Lambda) and len(k.value.args.args) == 1:
+                p = k.value.args.args[0].arg
+                body = unparse(k.value.body)
+                return body in ('%s.shape[0]' % p, 'len(%s)' % p, '%s.size' % p)
+    return False
+
+
 def mixing_sites(f):
     """[(call node, callee, axis repr, operand asts)] with a spectral operand."""
     mentions = spectral_names(f)
@@ -138,6 +150,8 @@ def mixing_sites(f):
             operands = [n.func.value] + operands
         if builtin and nm in ('min', 'max') and len(n.args) >= 2:
             continue  # scalar min/max of several values
+        if builtin and nm in ('min', 'max') and len(n.args) == 1 and _key_by_size(n):
+            continue  # picks one of several arrays by its size: the arrays themselves are not combined
         if not any(mentions(o) for o in operands):
             continue
         axis = None
@@ -286,7 +300,23 @@ def run(ix, R):
     with R.guard('4.native', 'DOM', site, 'native grid'):
         f = ix.func(site)
         from sa.helpers import need
-        need(R, '4.native', 'DOM', site,
+        from sa.pattern import find as _find
+        stmt4 = 'the native grid is the largest wavenumber grid among the active molecules (independent of the requested grid)'
+        head = ['V_ag = self.chemistry.activeGases', 'V_grids = [V_c[V_g].wavenumberGrid for V_g in V_ag]']
+        alt = None
+        for sel in ('return max(V_grids, key=lambda V_x: V_x.shape[0])', 'return max(V_grids, key=lambda V_x: len(V_x))',
+                    'return max(V_grids, key=len)'):
+            alt = alt or _find(f.node, head + [sel])[0]
+        small = None
+        for sel in ('return min(V_grids, key=lambda V_x: V_x.shape[0])', 'return min(V_grids, key=len)'):
+            small = small or _find(f.node, head + [sel])[0]
+        if small is not None:
+            R.fail('4.native', 'DOM', site, stmt4, 'the smallest grid is selected', 'min(..., key=size) picks the grid with '
+                   'the fewest points: molecules with finer grids are then interpolated down', f.loc())
+        elif alt is not None:
+            R.ok('4.native', 'DOM', site, stmt4, loc=f.loc())
+        else:
+          need(R, '4.native', 'DOM', site,
              'the native grid is the largest wavenumber grid among the active molecules (independent of the requested grid)', f,
              ['V_ag = self.chemistry.activeGases', 'V_grids = [V_c[V_g].wavenumberGrid for V_g in V_ag]',
               '''
